@@ -92,3 +92,27 @@ def eq_list(A, label, got, want):
     for t in range(len(want)):
         out.append(('%s@%d' % (label, t), A.eq(got[t], want[t])))
     return out
+
+
+def obj_spec(kind, f, semantics=None, io=None, pastify=False):
+    """the variables of f (x, y, z) become the fields of ONE variable m of a user type (import_module + declare_var): returns the
+    specification and a function that turns a trace dict into the column of objects"""
+    from . import objmsg
+    f = T(f)
+
+    def ren(g):
+        g = T(g)
+        if g[0] == 'var':
+            return ('var', 'm.' + g[1])
+        return tuple(ren(c) if isinstance(c, tuple) else c for c in g)
+    s = KINDS[kind](**({'semantics': semantics} if semantics is not None else {}))
+    s.import_module('vf.objmsg', 'Msg')
+    s.declare_var('m', 'Msg')
+    if io:
+        s.set_var_io_type('m', io)
+    s.spec = 'out = ' + text(ren(f))
+    s.parse()
+    if pastify:
+        s.pastify()
+    vs = sorted(variables(f))
+    return s, (lambda w, i: objmsg.Msg(**{v: w[v][i] for v in vs}))
